@@ -910,6 +910,35 @@ class StrEval:
                 sep = self.eval(e.func.value, fc, env)
                 if isinstance(sep, Lit) and e.args:
                     a = e.args[0]
+                    if isinstance(a, (ast.ListComp, ast.GeneratorExp)) and len(a.generators) == 1 and sep.s == "" \
+                            and isinstance(a.generators[0].iter, (ast.Tuple, ast.List)) and 0 < len(a.generators[0].iter.elts) <= 16:
+                        # a comprehension over a literal table: one (optional) piece per row, in order
+                        g_ = a.generators[0]
+                        pieces, okp = [], True
+                        for row in g_.iter.elts:
+                            renv = dict(env)
+                            if isinstance(g_.target, ast.Name):
+                                renv[g_.target.id] = self.eval(row, fc, env)
+                            elif isinstance(g_.target, ast.Tuple) and isinstance(row, (ast.Tuple, ast.List)) and len(row.elts) == len(g_.target.elts) \
+                                    and all(isinstance(t_, ast.Name) for t_ in g_.target.elts):
+                                for t_, r_ in zip(g_.target.elts, row.elts):
+                                    renv[t_.id] = self.eval(r_, fc, env)
+                            else:
+                                okp = False
+                                break
+                            item = self.eval(a.elt, fc, renv)
+                            item = self._as_hole(a.elt, fc, item if isinstance(item, S) else None)
+                            keep = True
+                            for c_ in g_.ifs:
+                                t_ = self._fold(c_, fc, renv)
+                                if t_ is False:
+                                    keep = False
+                                elif t_ is not True:
+                                    item = alt([EPS, item])
+                            if keep:
+                                pieces.append(item)
+                        if okp:
+                            return cat(pieces)
                     if isinstance(a, (ast.ListComp, ast.GeneratorExp)):
                         benv = dict(env)
                         for g in a.generators:
